@@ -255,7 +255,10 @@ Definition corr_e2e_obs (c : ecase) (o : eobs) : bool :=
   if negb (e_settled o) || killed o then true else
   let s := run (ec_cfg c) (ec_children c) 0 (firstn (e_nops o) (ec_ops c)) in
   Bool.eqb (alive s) (e_alive o) &&
-  (if alive s then view_eqb (m_view (ec_cfg c) (m s)) (e_view o) else exitreason s =? e_reason o).
+  (* a settled observation: every exit signal of handleAction has been obeyed (the instrumented children
+     always terminate when told to), so nothing may be outstanding in the model either *)
+  (if alive s then view_eqb (m_view (ec_cfg c) (m s)) (e_view o) && is_nil (outstanding s)
+   else exitreason s =? e_reason o).
 Definition corr_e2e (c : ecase) : bool :=
   forallb (corr_e2e_obs c) (ec_obs c) &&
   (existsb killed (ec_obs c) ||
